@@ -26,6 +26,7 @@ from happysimulator.core.event_heap import EventHeap  # noqa: E402
 from happysimulator.core.sim_future import SimFuture  # noqa: E402
 from happysimulator.core.simulation import Simulation  # noqa: E402
 from happysimulator.core.temporal import Instant  # noqa: E402
+from happysimulator.instrumentation.recorder import InMemoryTraceRecorder  # noqa: E402
 from happysimulator.parallel import ParallelSimulation, PartitionLink, SimulationPartition  # noqa: E402
 
 from simkit.world import InvalidScenario, repo_exception_sig, result  # noqa: E402
@@ -61,7 +62,7 @@ EXPECTED_PROBES = ["probe.cross_event_delivered", "probe.event_on_window_boundar
                    "probe.window_eq_min_latency", "probe.pingpong", "probe.independent_partitions", "probe.threads_mode",
                    "probe.daemon_events_with_end_time", "probe.nonzero_start_time", "probe.end_given_as_duration",
                    "probe.outage_dropped_a_delivery", "probe.future_parked_across_windows", "probe.link_declared_twice",
-                   "probe.decoy_model_constructed"]
+                   "probe.decoy_model_constructed", "probe.source_inside_partition", "probe.partition_with_trace_recorder"]
 SHRINK_SKIP = ("n_kinds",)
 
 LAT_NS = [1_000_000, 100_000_000, 700_000_000, 1_000_000_000]
@@ -159,9 +160,17 @@ def gen(rng, tier):
     mode = "threads" if rng.random() < (0.03 if tier == "quick" else 0.08) else "serial"
     if mode == "threads":  # real threads are slow: keep the horizon short
         end = min(end, 15 * w_ns) if end is not None else 15 * w_ns
+    # load Sources inside partitions (ticks on / around window boundaries); a Source never stops, so an explicit end
+    sources = []
+    if rng.random() < 0.2 and mode != "threads":
+        if end is None:
+            end = rng.choice([5, 12, 30]) * w_ns + rng.choice([0, w_ns // 2 + 1])
+        for _ in range(rng.randint(1, 2)):
+            sources.append({"ent": rng.randrange(n_ent), "every_w": rng.choice([0.5, 1, 1, 2.5, 3])})
     dup_links = [k for k in sorted(links) if rng.random() < 0.1]      # the same directed pair declared twice
     decoy = rng.choice(["before", "after"]) if rng.random() < 0.15 else None
-    return {"dup_links": dup_links, "decoy": decoy,
+    traced = [p for p in range(n_parts) if rng.random() < 0.08]      # partitions with their own trace recorder
+    return {"dup_links": dup_links, "decoy": decoy, "sources": sources, "traced_parts": traced,
             "parts": parts, "n_kinds": n_kinds, "links": links, "window": window, "handlers": handlers,
             "initial": initial, "end": end, "start": start, "use_duration": use_duration, "outages": outages, "mode": mode,
             "sched_seed": rng.randrange(2**31), "workers": rng.randint(1, n_parts)}
@@ -229,6 +238,16 @@ class World:
         for e in emits:
             out.append(Event(time=Instant(now + e["dt"]), event_type=f"k{e['k']}", target=self.entities[e["to"]],
                              daemon=bool(e.get("daemon", False))))
+        return out
+
+    def sources_of(self, part: int | None = None):
+        """Fresh Source objects feeding entities of partition `part` (None: all)."""
+        from happysimulator import Source
+        out = []
+        for j, so in enumerate(self.sc.get("sources", [])):
+            if part is None or self.ent_part[so["ent"]] == part:
+                out.append(Source.constant(rate=1e9 / (self.w_ns * so["every_w"]), target=self.entities[so["ent"]],
+                                           event_type="k0", name=f"load{j}"))
         return out
 
     def outage_events(self):
@@ -299,6 +318,9 @@ def _validate(sc):
         raise InvalidScenario("no initial events")
     if sc.get("start", 0) < 0:
         raise InvalidScenario("negative start")
+    for so in sc.get("sources", []):
+        if not (0 <= so["ent"] < n_ent) or so["every_w"] < 0.25 or sc.get("end") is None:
+            raise InvalidScenario("bad source (or no explicit end)")
     for o in sc.get("outages", []):
         if not (0 <= o["ent"] < n_ent) or o["s"] < 1 or o["e"] <= o["s"]:
             raise InvalidScenario("bad outage")
@@ -523,7 +545,7 @@ def _time_kwargs(sc):
 def run_sequential(sc):
     w = World(sc)
     kw, eff_end = _time_kwargs(sc)
-    sim = Simulation(entities=w.entities, **kw)
+    sim = Simulation(entities=w.entities, sources=w.sources_of() or None, **kw)
     for _, ev in w.initial():
         sim.schedule(ev)
     for _, ev in w.outage_events():
@@ -554,7 +576,9 @@ def run_parallel(sc):
         parts = []
         idx = 0
         for p, n in enumerate(sc["parts"]):
-            parts.append(SimulationPartition(name=names[p], entities=world.entities[idx: idx + n]))
+            parts.append(SimulationPartition(name=names[p], entities=world.entities[idx: idx + n],
+                                             sources=world.sources_of(p),
+                                             trace_recorder=InMemoryTraceRecorder() if p in sc.get("traced_parts", []) else None))
             idx += n
         links = []
         for key in sorted(sc["links"]) + sorted(sc.get("dup_links", [])):
@@ -660,6 +684,8 @@ def run(sc):
         "probe.end_given_as_duration": int(bool(sc.get("use_duration")) and end is not None),
         "probe.outage_dropped_a_delivery": int(bool(sc.get("outages")) and _outage_effective(sc, seq)),
         "probe.future_parked_across_windows": int(seq.fut_cross_window > 0),
+        "probe.source_inside_partition": int(bool(sc.get("sources"))),
+        "probe.partition_with_trace_recorder": int(bool(sc.get("traced_parts")) and cross > 0),
         "probe.link_declared_twice": int(bool(sc.get("dup_links")) and cross > 0),
         "probe.decoy_model_constructed": int(bool(sc.get("decoy")) and cross > 0),
         "sched.task_orders_or_baton_switches": switches,
